@@ -190,6 +190,12 @@ impl PutQuery {
         self.errors
             .first()
             .and_then(|(count, error)| match error.code {
+                // Only mutable items have CAS and sequence numbers, any other kind of PUT
+                // getting these codes (from a confused or malicious node) is a plain error.
+                301 | 302 if !matches!(self.request, PutRequestSpecific::PutMutable(_)) => Some((
+                    *count,
+                    PutError::from(PutQueryError::ErrorResponse(error.clone())),
+                )),
                 301 => Some((*count, PutError::from(ConcurrencyError::CasFailed))),
                 302 => Some((*count, PutError::from(ConcurrencyError::NotMostRecent))),
                 _ => None,
